@@ -257,11 +257,26 @@ def effectiveStrict (cfg : Option Bool) (ps : List Policy) : Bool :=
   | some b => b
   | none => hasTLSClientAuth ps
 
-/-- the routes the harness configures: one exact-name host route per site, then a catch-all.
+/-- MatchHost's label loop for a pattern that contains `*`: the label counts must agree, a pattern
+    label that is exactly `*` matches ANY label (an empty one too), every other label must be
+    EqualFold-equal -/
+def labelsMatch : List Bytes → List Bytes → Bool
+  | [], [] => true
+  | p :: ps, l :: ls =>
+    if p = [cStar] then labelsMatch ps ls
+    else if equalFold p l then labelsMatch ps ls
+    else false
+  | _, _ => false
+
+/-- caddyhttp MatchHost for one configured host: wildcard patterns label by label, others by EqualFold -/
+def hostMatch (rh site : Bytes) : Bool :=
+  if site.contains cStar then labelsMatch (splitDot site) (splitDot rh) else equalFold rh site
+
+/-- the routes the harness configures: one host route per site (exact name or wildcard pattern), then a catch-all.
     `some k` = handler of site `k`, `none` = catch-all handler. -/
 def routeFrom (k : Nat) (rh : Bytes) : List Bytes → Option Nat
   | [] => none
-  | s :: ss => if equalFold rh s then some k else routeFrom (k + 1) rh ss
+  | s :: ss => if hostMatch rh s then some k else routeFrom (k + 1) rh ss
 
 def route (sites : List Bytes) (host : Bytes) : Option Nat := routeFrom 0 (routingHost host) sites
 
